@@ -39,10 +39,18 @@ fn split_key(k: &str) -> Result<(&str, &str)> {
 	k.split_once(':').with_context(|| format!("member key {k:?} is not name:desc"))
 }
 
+/// the attributes of a member that already carries `@Environment(value = EnvType.<pre>)` (an input that is itself a merged jar)
+fn pre_attrs(m: &Value) -> Value {
+	match m["pre"].as_str() {
+		Some(side @ ("client" | "server")) => json!({"RuntimeInvisibleAnnotations": [{"type": ENVIRONMENT, "pairs": [["value", {"e": {"type": ENV_TYPE, "name": side.to_uppercase()}}]]}]}),
+		_ => json!({}),
+	}
+}
+
 fn field_facts(m: &Value) -> Result<Value> {
 	let (name, desc) = split_key(m["k"].as_str().context("k")?)?;
 	let access = [0x0002, 0x0001, 0x0004, 0x0000][(m["v"].as_u64().unwrap_or(0) % 4) as usize];
-	Ok(json!({"access": access, "name": name, "desc": desc, "attrs": {}}))
+	Ok(json!({"access": access, "name": name, "desc": desc, "attrs": pre_attrs(m)}))
 }
 
 fn method_facts(m: &Value) -> Result<Value> {
@@ -56,8 +64,9 @@ fn method_facts(m: &Value) -> Result<Value> {
 		_ => json!([{"op": "return"}]),
 	};
 	let slots = 1 + arg_slots(desc);
-	Ok(json!({"access": access, "name": name, "desc": desc, "attrs": {"Code": {
-		"max_stack": 1, "max_locals": slots, "insns": insns, "exceptions": [], "attrs": {}}}}))
+	let mut attrs = pre_attrs(m);
+	attrs["Code"] = json!({"max_stack": 1, "max_locals": slots, "insns": insns, "exceptions": [], "attrs": {}});
+	Ok(json!({"access": access, "name": name, "desc": desc, "attrs": attrs}))
 }
 
 fn arg_slots(desc: &str) -> u64 {
@@ -184,6 +193,17 @@ fn env_mark(attrs: &Value) -> &'static str {
 		},
 		_ => "?",
 	}
+}
+
+/// every side some `@Environment` of the member names ("?" for an annotation of another shape)
+fn env_sides(attrs: &Value) -> Vec<&'static str> {
+	let mut v: Vec<&'static str> = annotations(attrs).into_iter().filter(|a| a["type"] == ENVIRONMENT).map(|a| {
+		let pairs = arr(&a["pairs"]);
+		if pairs.len() == 1 && pairs[0][0] == "value" { side_of(&pairs[0][1]).unwrap_or("?") } else { "?" }
+	}).collect();
+	v.sort();
+	v.dedup();
+	v
 }
 
 /// @EnvironmentInterface(value = EnvType.X, itf = I.class) -> (I, side); None = not of that shape
@@ -322,8 +342,40 @@ pub fn exec(v: &Value) -> Result<Value> {
 			Ok(json!({"ok": true, "r": cls[if level == "interfaces" { "itf" } else { level }], "mark": cls["mark"], "xitf": cls["xitf"],
 				"eqc": g["entries"][K]["eqc"], "eqs": g["entries"][K]["eqs"]}))
 		},
+		// a member (level fields / methods) that only `side` has and that already carries @Environment(pre); next to it a member
+		// both sides have, so that the classes differ and are merged member by member
+		"premarked" => {
+			let level = v["level"].as_str().context("level")?;
+			let side = v["side"].as_str().context("side")?;
+			let (shared, own) = if level == "fields" { ("s:I", "o:I") } else { ("s:()V", "o:()V") };
+			let mk = |with_own: bool, tag: &str| -> Value {
+				let mut ms = vec![json!({"k": shared, "v": 0})];
+				if with_own { ms.push(json!({"k": own, "v": 0, "pre": v["pre"]})); }
+				json!({K: {"kind": "class", "tag": tag, "itf": [],
+					"fields": if level == "fields" { json!(ms) } else { json!([]) }, "methods": if level == "methods" { json!(ms) } else { json!([]) }}})
+			};
+			let g = run_merge_raw(&json!({"client": mk(side == "client", "K.java"), "server": mk(side == "server", "K2.java")}))?;
+			let Some(facts) = g else { return Ok(json!({"ok": false})) };
+			let members = arr(&facts[level]);
+			let Some(m) = members.iter().find(|m| format!("{}:{}", sdisp(&m["name"]), sdisp(&m["desc"])) == own) else { return Ok(json!({"ok": true, "found": false})) };
+			let sides = env_sides(&m["attrs"]);
+			Ok(json!({"ok": true, "found": true, "has_client": sides.contains(&"client"), "has_server": sides.contains(&"server"), "odd": sides.contains(&"?")}))
+		},
 		op => bail!("C13: unknown op {op}"),
 	}
+}
+
+/// merge of two abstract jars holding class K: the facts of K in the result (None: the merge or the write failed)
+fn run_merge_raw(v: &Value) -> Result<Option<Value>> {
+	let c = jar_contents(&v["client"], &v["corder"])?;
+	let s = jar_contents(&v["server"], &v["sorder"])?;
+	let Ok(merged) = dukebox::merge::merge(UnnamedMemJar { data: zip_bytes(&c)? }, UnnamedMemJar { data: zip_bytes(&s)? }) else { return Ok(None) };
+	let Ok(out) = merged.to_mem() else { return Ok(None) };
+	let mut zr = zip::ZipArchive::new(Cursor::new(&out.data)).context("result is not a zip")?;
+	let Ok(mut f) = zr.by_name(K) else { return Ok(None) };
+	let mut data = vec![];
+	f.read_to_end(&mut data)?;
+	Ok(cfkit::parse::parse_class(&data).ok().map(|p| p.facts))
 }
 
 // ---------------------------------------------------------------------------------------------
